@@ -280,12 +280,13 @@ func trackCPUMem(t *pod_info.PodInfo) (cpu, mem float64) {
 // the nominated one. The tracker supplies the missing releasing instance ("ghost") so that
 // ground truth can still be recomputed from pods and statuses.
 type Tracker struct {
+	lastAllocNode map[string]string          // pod -> node of its last Allocate event
 	lastEvict map[string]*pod_info.PodInfo // pod -> copy at eviction time (node, groups)
 	ghosts    map[string]*pod_info.PodInfo // pod -> releasing instance still charged on its node
 }
 
 func NewTracker() *Tracker {
-	return &Tracker{lastEvict: map[string]*pod_info.PodInfo{}, ghosts: map[string]*pod_info.PodInfo{}}
+	return &Tracker{lastAllocNode: map[string]string{}, lastEvict: map[string]*pod_info.PodInfo{}, ghosts: map[string]*pod_info.PodInfo{}}
 }
 
 func sameGroups(a, b []string) bool {
@@ -308,6 +309,12 @@ func (tr *Tracker) OnDeallocate(t *pod_info.PodInfo) {
 	if t.Status == pod_status.Releasing {
 		// (if the nomination of a moved pod is being undone, the ghost stays until the node's pod map
 		// shows the releasing instance again; ghostsOn de-duplicates against the pod map)
+		if n, ok := tr.lastAllocNode[key]; ok && n != t.NodeName {
+			// not an eviction: the nomination of an already evicted pod onto ANOTHER node is being undone
+			// (the event shows the pod back on its own node, releasing - with the groups it had been given on
+			// the other node, see the open C13 finding); the record of the eviction itself stays
+			return
+		}
 		if _, moved := tr.ghosts[key]; moved {
 			// a later solver of the same cycle evicts the NOMINATED instance of a pod that was already
 			// moved to another device: the original releasing instance is still charged on its device,
@@ -322,6 +329,7 @@ func (tr *Tracker) OnDeallocate(t *pod_info.PodInfo) {
 
 func (tr *Tracker) OnAllocate(t *pod_info.PodInfo) {
 	key := t.Namespace + "/" + t.Name
+	tr.lastAllocNode[key] = t.NodeName
 	if t.Status == pod_status.Pipelined {
 		if ev, ok := tr.lastEvict[key]; ok && ev.NodeName == t.NodeName && t.IsSharedGPUAllocation() && len(t.GPUGroups) > 0 && !sameGroups(ev.GPUGroups, t.GPUGroups) {
 			tr.ghosts[key] = ev
